@@ -214,6 +214,21 @@ DIRECTED = ['2_14', '+204-034', '2014- 7', '2003-09-25T1 ', '2014-01-01T10:00+01
 
 
 def directed(ctx, handler, parsers, P):
+    # characters U+0080..U+00FF (and other non-ASCII) exactly in the separator position of otherwise valid texts
+    import random
+    r = random.Random(ctx.seed)
+    for _ in range(60):
+        dt = render_iso.random_datetime(r)
+        spec = render_iso.random_spec(r, date_only_ok=False)
+        for ch in ('\xa0', '\xe9', '\xb7', '\xff', '\x80', '\u2028', '\u0660', '\uff34'):
+            text, _, _ = render_iso.render(dt, dict(spec, sep=ch))
+            handler.current = ('sep-nonascii', ['sep*'])
+            for p in (parsers[None], P):
+                try:
+                    p.isoparse(text)
+                except Exception:
+                    pass
+            ctx.count('directed_nonascii_separator')
     for text in DIRECTED:
         for sep in (None, 'T', ' '):
             handler.current = ('directed', ['directed'])
